@@ -123,7 +123,60 @@ def _run_plugin(args):
     return unit, out, ''
 
 
-def extract_ast(cfg='Q0', use_cache=True, log=None):
+
+ALPHA = os.environ.get('VERIF_ALPHA', '')
+ALPHA_KEEP = set(filter(None, os.environ.get('VERIF_ALPHA_KEEP', '').split(',')))
+
+
+def _normalise(merged):
+    from . import localnames
+    alpha_rename(merged)
+    localnames.canon(merged)
+    return merged
+
+
+def alpha_rename(merged):
+    """metamorphic self-test (VERIF_ALPHA=<suffix>): present the facts as if every local variable and parameter of /repo had been
+    renamed consistently (name -> name<suffix>).  No verdict may change: rules are about roles and resolved declarations, not about
+    what a local is called.  Off in every registered command; used by `bin/check.py --alpha` and the thorough self-test."""
+    if not ALPHA:
+        return merged
+
+    mod = int(os.environ.get('VERIF_ALPHA_MOD', '1'))
+    pick = int(os.environ.get('VERIF_ALPHA_PICK', '0'))
+
+    def ren(n):
+        if n in ALPHA_KEEP or not n:
+            return n
+        if mod > 1 and int(hashlib.md5(n.encode()).hexdigest(), 16) % mod != pick:
+            return n                   # only a subset of the names is renamed
+        return n + ALPHA
+
+    def walk(x):
+        if isinstance(x, dict):
+            if x.get('vid') is not None:
+                if isinstance(x.get('d'), str):
+                    parts = x['d'].split('::')
+                    parts[-1] = ren(parts[-1])
+                    x['d'] = '::'.join(parts)
+                if isinstance(x.get('n'), str) and x.get('k') is None:
+                    x['n'] = ren(x['n'])
+            for v in x.values():
+                if isinstance(v, (dict, list)):
+                    walk(v)
+        elif isinstance(x, list):
+            for v in x:
+                if isinstance(v, (dict, list)):
+                    walk(v)
+    for f in merged['functions'].values():
+        if f.get('_alpha'):
+            continue
+        f['_alpha'] = True
+        walk(f.get('params') or [])
+        walk(f.get('blocks') or [])
+    return merged
+
+def extract_ast(cfg='Q0', use_cache=True, log=None, raw=False):
     """Return merged AST facts for configuration cfg (dict)."""
     if not os.path.exists(PLUGIN):
         raise AnalysisBroken('build/grfacts.so missing: run MANIFEST.setup_cmd (make -C tools)')
@@ -131,7 +184,8 @@ def extract_ast(cfg='Q0', use_cache=True, log=None):
     pk = os.path.join(cdir, 'ast.pickle')
     if use_cache and os.path.exists(pk):
         with open(pk, 'rb') as fh:
-            return pickle.load(fh)
+            m = pickle.load(fh)
+            return m if raw else _normalise(m)
     t0 = time.time()
     units = unit_list(cfg)
     tmp = os.path.join(cdir, 'ast')
@@ -177,7 +231,7 @@ def extract_ast(cfg='Q0', use_cache=True, log=None):
     with open(pk, 'wb') as fh:
         pickle.dump(merged, fh, protocol=pickle.HIGHEST_PROTOCOL)
     _prune_cache()
-    return merged
+    return merged if raw else _normalise(merged)
 
 
 def _prune_cache(keep=12):
